@@ -89,17 +89,26 @@ Proof.
   eapply Forall_forall in X; eauto.
 Qed.
 
-(* ---- the witness of the open finding C03-template-keyword-a ---- *)
+(* ---- regression: the executor before the repair 67601f1 (`a` read as the word `a`) violated the
+   property on INSERT DATA { <i1> a <i2> }, and silently dropped INSERT DATA { <i1> <i5> << <i2> a <i3> >> };
+   the repaired executor computes the Spec on both ---- *)
 Require Import KV.Update.InstProofs KV.Update.Proofs.
-Lemma kw_a_refuted :
-  exists (u : update gwhere) (s : state),
-    known_kw_a u = true /\ wf s /\
-    forall bn, den (fst (fst (exec_update gwhere eval_gwhere gwhere_terms u s))) <> fst (spec_update eval_gwhere u bn (den s)).
+Lemma kw_a_refuted_before_fix :
+  let u1 : update gwhere := InsertData [TQ (TConst (Iri 1)) TKwA (TConst (Iri 2)) GDefault] in
+  let u2 : update gwhere := InsertData [TQ (TConst (Iri 1)) (TConst (Iri 5)) (TQuoted (TConst (Iri 2)) TKwA (TConst (Iri 3))) GDefault] in
+  let s := St [] [] [] 1 [] in
+  wf s /\
+  (forall bn, den (fst (fst (exec_update_gen gwhere eval_gwhere gwhere_terms a_word u1 s))) <> fst (spec_update eval_gwhere u1 bn (den s))) /\
+  (forall bn, den (fst (fst (exec_update_gen gwhere eval_gwhere gwhere_terms a_word u2 s))) <> fst (spec_update eval_gwhere u2 bn (den s))) /\
+  (forall bn, den (fst (fst (exec_update gwhere eval_gwhere gwhere_terms u1 s))) = fst (spec_update eval_gwhere u1 bn (den s))) /\
+  (forall bn, den (fst (fst (exec_update gwhere eval_gwhere gwhere_terms u2 s))) = fst (spec_update eval_gwhere u2 bn (den s))).
 Proof.
-  exists (InsertData [TQ (TConst (Iri 1)) TKwA (TConst (Iri 2)) GDefault]), (St [] [] [] 1 []).
-  split; [reflexivity|]. split.
+  cbv zeta. split; [|split; [|split; [|split]]].
   - split; [constructor|]. split.
     + intros q g [].
     + intros t [u0 [[[]|[q [[] _]]] _]].
   - intros bn. vm_compute. discriminate.
+  - intros bn. vm_compute. discriminate.
+  - intros bn. vm_compute. reflexivity.
+  - intros bn. vm_compute. reflexivity.
 Qed.
